@@ -193,3 +193,56 @@ class factorize_hrg:
     loops = {0: lambda: always_passed("factorize_rule", "method") and count("factorize_rule") == _i0,
              1: lambda: always_passed("factorize_rule", "method")}
     ensures = {"method_honoured": lambda method: always_passed("factorize_rule", "method")}
+
+
+# ---- tree decomposition from an elimination order (C10): every vertex and every edge is covered by some bag -----------
+# (the nested recursive `build` is verified against its own contract; that the bags containing a vertex form a subtree,
+#  and that the search loop for a bag containing the clique always succeeds -- the Helly property -- are NOT proved:
+#  AssertionError is declared possible, the bounded stand-in covers validity exhaustively up to its vertex bound)
+def order_enumerates(graph, order):
+    return (forall(lambda w: (w in graph) == (w in order), "PyVal")
+            and forall(lambda i, j: implies(0 <= i and i < j and j < len(order), order[i] != order[j]), "int,int"))
+
+def covers(tree, vertices, adj):
+    # every vertex of `vertices` and every edge of `adj` lies inside some bag of the tree
+    return (forall(lambda x: implies(x in vertices, exists(lambda b: b in tree and x in b, "set[PyVal]")), "PyVal")
+            and forall(lambda x, y: implies(x in adj and y in adj[x],
+                                            exists(lambda b: b in tree and x in b and y in b, "set[PyVal]")), "PyVal,PyVal"))
+
+def tree_frame(tree, vertices):
+    # bags that were there stay; new bags consist of vertices
+    return (forall(lambda b: implies(b in old(tree), b in tree), "set[PyVal]")
+            and forall(lambda b, x: implies(b in tree and b not in old(tree) and x in b, x in vertices), "set[PyVal],PyVal"))
+
+
+@contract("fggs.factorize.tree_decomposition_from_order.build")
+class td_build:
+    sig = {"order": "seq[PyVal]", "graph": "dict[PyVal,set[PyVal]]", "tree": "dict[set[PyVal],set[set[PyVal]]]"}
+    properties = ["C10"]
+    captures = ["graph", "tree"]
+    modular = True
+    modifies = ["graph", "tree"]
+    locals = {"clique": "set[PyVal]"}
+    may_raise = ["AssertionError"]
+    shards = 6
+    requires = lambda order, graph, tree: sym_irrefl(graph) and len(order) >= 1 and order_enumerates(graph, order)
+    loops = {0: lambda graph, tree: True}
+    ensures = {
+        "covers": lambda order, graph, tree: covers(tree, old(keys(graph)), old(graph)),
+        "frame": lambda order, graph, tree: tree_frame(tree, old(keys(graph))),
+    }
+
+
+@contract("fggs.factorize.tree_decomposition_from_order")
+class tree_decomposition_from_order:
+    sig = {"graph": "dict[PyVal,set[PyVal]]", "order": "seq[PyVal]"}
+    properties = ["C10", "C05"]
+    locals = {"tree": "dict[set[PyVal],set[set[PyVal]]]"}
+    may_raise = ["AssertionError"]
+    requires = lambda graph, order: sym_irrefl(graph) and order_enumerates(graph, order)
+    ensures = {
+        "covers": lambda graph, order, result: covers(result, old(keys(graph)), old(graph)),
+        "bags_are_vertex_sets": lambda graph, order, result: forall(
+            lambda b, x: implies(b in result and x in b, x in old(keys(graph))), "set[PyVal],PyVal"),
+        "nonempty": lambda result: exists(lambda b: b in result, "set[PyVal]"),
+    }
